@@ -27,6 +27,7 @@ CONSTANTS NP, NC, NG,       \* maximal table sizes; a random data set has 0..N r
           NQ,               \* number of random queries (InitRandom / InitHier)
           Roots,            \* subset of {"P", "C"}
           GridSel,          \* "forms" | "mods" | "all": which part of the systematic grid InitGrid enumerates
+          GridKeep,         \* percentage of the grid's queries that is kept (seeded random thinning; 100 = all)
           NH,               \* hierarchy: maximal number of rows
           Mixed             \* hierarchy: also mappings that mix single-table and joined-table inheritance
 VARIABLES k, ds, q, out
@@ -194,15 +195,20 @@ GridForms == [root : Roots, pf : PFormsP \cup PFormsC, pv : Vals, jn : {"none"} 
               dist : {FALSE}, ord : {"id"}, lim : {-1}, off : {-1}]
 GridMods == [root : Roots, pf : {"none", "anyc"}, pv : {1}, jn : {"none", "inner", "outery", "par"}, jv : {1}, sel : Sels \ {"grp"},
              dist : BOOLEAN, ord : Ords, lim : {-1, 0, 1, 2}, off : {-1, 1}]
-GridQ == (IF GridSel \in {"forms", "all"} THEN {Norm(r) : r \in GridForms} ELSE {}) \cup
-         (IF GridSel \in {"mods", "all"} THEN {Norm(r) : r \in GridMods} ELSE {})
+GridQF == IF GridSel \in {"forms", "all"} THEN {Norm(r) : r \in GridForms} ELSE {}
+GridQM == (IF GridSel \in {"mods", "all"} THEN {Norm(r) : r \in GridMods} ELSE {}) \ GridQF
 Finish == /\ out = Case /\ PrintT(ToJson(out))
-InitGrid == /\ k \in 1..K /\ q \in GridQ /\ RandomDs /\ Finish
+\* (GridKeep thins the modifier grid only; K = 0 / NQ = 0 switch a part off)
+InitGrid == /\ k \in 1..K
+            /\ \/ q \in GridQF
+               \/ q \in GridQM /\ (GridKeep >= 100 \/ RandomElement(1..100) <= GridKeep)
+            /\ RandomDs /\ Finish
 InitRandom == /\ k \in 1..NQ /\ q = RandomQ(k) /\ RandomDs /\ Finish
 \* every data set of the (small) maximal sizes, one random query each
 ExhDs == [np : {NP}, nc : {NC}, ng : {NG}, px : [1..NP -> 0..MaxV], cp : [1..NC -> 0..NP], cy : [1..NC -> 0..MaxV],
           gc : [1..NG -> 0..NC], gz : [1..NG -> 0..MaxV]]
 InitExh == /\ k \in 1..K /\ ds \in ExhDs /\ q = RandomQ(k) /\ Finish
+InitPart1 == InitGrid \/ InitRandom          \* one TLC process enumerates the systematic and the random part
 Next == UNCHANGED vars
 
 \* ================================================================ theorems (checked on every case)
@@ -360,13 +366,15 @@ RandomHQ(kk) == [at |-> RandomElement({"A", "B1", "B2", "C1", "C2"}), flt |-> Ra
                  lim |-> Pick(LimW), off |-> Pick(OffW), via |-> RandomElement({"direct", "jot", "aot", "items"})]
 InitHier == /\ k \in 1..NQ /\ RandomHDs /\ q = HNorm(ds, RandomHQ(k)) /\ HFinish
 \* systematic: every shape x {single, joined [, mixed]} x every class queried x every via x every filter, unsliced, with random rows
-InitHierGrid == /\ k \in 1..K
+InitHierGrid == /\ k \in 1..K /\ (GridKeep >= 100 \/ RandomElement(1..100) <= GridKeep)
                 /\ \E h \in HShapes : \E tb \in TabChoices(h) : \E nn \in {Pick(Sizes(NH))} : \E nh \in {RandomElement(1..2)} :
                    \E raw \in {RandomElement([1..nn -> HRowSpace(h, nh)])} :
                      ds = [cls |-> h.cls, c2par |-> h.c2par, tabs |-> tb, n |-> nn, nh |-> nh, rows |-> [i \in 1..nn |-> HNormRow(h, raw[i])]]
                 /\ q \in {HNorm(ds, r) : r \in [at : ds.cls, flt : {"none", "a", "sub"}, fc : ds.cls \ {"A"}, fv : {1}, ord : {"id"},
                                                lim : {-1}, off : {-1}, via : {"direct", "jot", "aot", "items"}]}
                 /\ HFinish
+
+InitPart2 == InitHierGrid \/ InitHier
 
 \* ---- theorems of part 2
 HNoLim(qq) == [qq EXCEPT !.lim = -1, !.off = -1]
